@@ -1,2 +1,45 @@
-(* C10 — property theorems (being built). *)
-From Klog Require Import Base.Prelude Model.Lines Model.Parser.
+(* C10 — syntax errors are reported at the right place.
+   Property theorems only; each is closed by [exact <lemma>] and followed by Print Assumptions.
+   The model is the parser after the fixes F3 and F9 (Model/Parser.v); both theorems hold for EVERY byte string.
+   Not here: first_error_at_fault (needs the specification Spec.v), renderings_agree (renderer models). *)
+From Coq Require Import Sorted.
+From Klog Require Import Base.Prelude Base.Utf8 Model.Lines Model.Parser Proofs.Lines Proofs.Parser.
+Open Scope nat_scope.
+
+(* every reported error names a line that exists in the text and quotes exactly that line's text;
+   position and length are non-negative and the span ends at most one character past the end of the line
+   (positions count runes of the quoted text, as Go's []rune(line.Text)) *)
+Theorem C10_errors_located : forall (s : bytes) (es : list rerr), parse_text s = Ok (Failed es) ->
+  Forall (fun e =>
+    re_line e < length (lines_of s) /\
+    (exists l, nth_error (lines_of s) (re_line e) = Some l /\ l_text l = re_text e) /\
+    (0 <= re_pos e /\ 0 <= re_len e /\
+     re_pos e + re_len e <= Z.of_nat (length (utf8_decode (re_text e))) + 1)%Z) es.
+Proof. exact errors_located. Qed.
+Print Assumptions C10_errors_located.
+
+(* errors come in ascending line order *)
+Theorem C10_errors_ascending : forall (s : bytes) (es : list rerr), parse_text s = Ok (Failed es) ->
+  Sorted le (map re_line es).
+Proof. exact errors_ascending. Qed.
+Print Assumptions C10_errors_ascending.
+
+(* the same with every pair compared (StronglySorted), and said with indices *)
+Theorem C10_errors_ascending_strong : forall (s : bytes) (es : list rerr), parse_text s = Ok (Failed es) ->
+  StronglySorted le (map re_line es).
+Proof. exact errors_ascending_strong. Qed.
+Print Assumptions C10_errors_ascending_strong.
+
+Theorem C10_errors_ascending_nth : forall (s : bytes) (es : list rerr) (i j : nat),
+  parse_text s = Ok (Failed es) -> i <= j -> j < length es ->
+  nth i (map re_line es) 0 <= nth j (map re_line es) 0.
+Proof. exact errors_ascending_nth. Qed.
+Print Assumptions C10_errors_ascending_nth.
+
+(* non-vacuity: example_faulty has five errors on lines 1, 2, 3, 8, 10; the first one sits one past the end of
+   its line (position 14 = length of "2020-01-01 (8h", length 1), so the "+ 1" of the bound is attained *)
+Example C10_nonvacuous :
+  exists es, parse_text example_faulty = Ok (Failed es) /\
+    map re_line es = [1; 2; 3; 8; 10] /\
+    map re_pos es = [14; 0; 4; 11; 4]%Z /\ map re_len es = [1; 2; 9; 1; 9]%Z.
+Proof. eexists; vm_compute; repeat split. Qed.
